@@ -22,7 +22,7 @@ func init() {
 	register("C21", c21)
 	meta("C21", Meta{
 		Text:      "Decides that every top-level declaration of gnovm/pkg/parser/{parser,resolver,interface}.go is syntactically identical (positions and comments ignored) to the declaration of the same name in the Go standard library parser shipped at /usr/lib/go-1.23/src/go/parser — or, for declarations that drifted because the fork base is newer than 1.23.5, to the go1.25.9 parser when that source is on disk — except for the Gno delta, which is itself decided: the parser struct gains exactly the callback field; next0 gains exactly one statement `if p.callback != nil { p.callback(<field reads>) }`; ParseFile2/ParseExprFrom2/ParseExpr2 equal ParseFile/ParseExprFrom/ParseExpr of the fork modulo the extra parameter and `p.callback = callback`; the callback field is referenced nowhere else. Level 'other': source identity with the upstream parser is a sufficient structural reason for behavioural identity of the identical parts; nothing is executed.",
-		Note:      "Not decided: parseParameterList (differs from both the 1.23.5 and the 1.25.9 source because the fork base is ≈go1.24, which is not on disk) — listed in a frozen residual table; if the go1.25.9 source is absent the other drifted declarations (init, parseParamDecl, extractName, parseFile, ParseFile, ParseExprFrom) are also not decided. go/scanner, go/ast and go/token are the standard library's own. Behaviour of user callbacks (they may panic) is outside the parser.",
+		Note:      "Not decided: parseParameterList (differs from both the 1.23.5 and the 1.25.9 source because the fork base is ≈go1.24, which is not on disk) — listed in a frozen residual table; if the go1.25.9 source is absent the other drifted declarations (init, parseParamDecl, extractName, parseFile, ParseFile, ParseExprFrom) are also not decided. go/scanner, go/ast and go/token are the standard library's own. Behaviour of user callbacks (they may panic) is outside the parser. Source identity is by design sensitive to edits of the fork: besides the exact Gno delta only two equivalent arrangements are recognised — a base entry point that is exactly `return <twin>(params..., nil)` while the twin minus its callback equals upstream's base function, and the observing hook statement as the sole content of one private *parser method called once from next0; any other edit of the fork, however harmless, is reported.",
 		Technique: "R-SIB source identity on position-free AST dumps against the upstream source, frozen drift table, R-WHO on the callback field",
 		Ref:       "DESIGN.md §2 C21",
 	})
@@ -270,11 +270,71 @@ func c21(c *engine.Ctx) {
 	key := func(name string) string { return c21Fork + "." + name }
 
 	names := engine.SortedKeys(fork)
+	// upstream text a (possibly drifted) declaration must equal
+	upstreamOf := func(name string) (dump, which string, decided bool) {
+		if _, drift := c21Drift[name]; drift {
+			if _, res := c21Residual[name]; res || up2 == nil || up2[name] == nil {
+				return "", "", false
+			}
+			return ceAstDump(up2[name].node, nil), "go1.25.9", true
+		}
+		if u := up[name]; u != nil {
+			return ceAstDump(u.node, nil), "go1.23.5", true
+		}
+		return "", "", false
+	}
+	// the *2 twins with the callback removed (computed once; the twin rule and the
+	// "base entry point delegates to its twin" form both use it)
+	twinPairs := [][2]string{{"ParseFile2", "ParseFile"}, {"ParseExprFrom2", "ParseExprFrom"}, {"ParseExpr2", "ParseExpr"}}
+	stripped := map[string]string{}    // base name -> dump of twin minus callback, renamed to base
+	strippedWhy := map[string]string{} // base name -> why the twin is not "base + callback"
+	for _, pr := range twinPairs {
+		if d2 := fork[pr[0]]; d2 != nil {
+			stripped[pr[1]], strippedWhy[pr[1]] = c21StripTwin(d2.node.(*ast.FuncDecl), pr[1], fork)
+		}
+	}
+	delegates := map[string]bool{}
+	for _, pr := range twinPairs {
+		if d1 := fork[pr[1]]; d1 != nil && c21DelegatesToTwin(d1.node.(*ast.FuncDecl), pr[0]) {
+			delegates[pr[1]] = true
+		}
+	}
+	// a private helper holding nothing but the observing hook (extract-method form of the next0 delta)
+	hookHelper := ""
+	for _, name := range names {
+		if _, inUp := up[name]; inUp || c21GnoAdded[name] {
+			continue
+		}
+		if fd, ok := fork[name].node.(*ast.FuncDecl); ok && c21IsHookHelper(fd) {
+			hookHelper = name
+		}
+	}
+
 	nSame, nDrift := 0, 0
 	for _, name := range names {
 		d := fork[name]
-		if c21GnoAdded[name] || name == "parser" || name == "(*parser).next0" {
+		if c21GnoAdded[name] || name == "parser" || name == "(*parser).next0" || (name == hookHelper && hookHelper != "") {
 			continue // decided by the delta rules below
+		}
+		if delegates[name] {
+			// base entry point == its twin called with a nil callback; the twin minus the
+			// callback must then be upstream's base function
+			want, which, decided := upstreamOf(name)
+			if !decided {
+				continue
+			}
+			if _, drift := c21Drift[name]; drift {
+				nDrift++
+			} else {
+				nSame++
+			}
+			same := strippedWhy[name] == "" && stripped[name] == want
+			det := "delegates to " + name + "2 with a nil callback; the twin minus the callback is identical to " + which
+			if !same {
+				det = "delegates to " + name + "2, but the twin minus the callback is not " + which + "'s " + name + ": " + strippedWhy[name] + " " + c21FirstDiff(stripped[name], want)
+			}
+			c.CheckAt("same-as-upstream", key(name), where(d), same, det)
+			continue
 		}
 		fd := ceAstDump(d.node, nil)
 		u, ok := up[name]
@@ -390,101 +450,76 @@ func c21(c *engine.Ctx) {
 		}
 		c.CheckAt("callback-hook", key("parser"), where(d), ok, why)
 	}
-	// next0: upstream + exactly one observing statement
+	// next0: upstream + exactly one observing statement (inline, or a call of the hook helper)
 	if d, u := fork["(*parser).next0"], up["(*parser).next0"]; d == nil || u == nil {
 		c.Undecided("anchor", key("(*parser).next0"), "next0 not found")
 	} else {
 		fd := d.node.(*ast.FuncDecl)
+		recv := c21RecvName(fd)
 		hooks := 0
 		pure := true
+		helperShort := ""
+		if hookHelper != "" {
+			helperShort = fork[hookHelper].node.(*ast.FuncDecl).Name.Name
+		}
+		// the helper is used by next0 only
+		if helperShort != "" {
+			uses := 0
+			for _, dd := range fork {
+				ast.Inspect(dd.node, func(x ast.Node) bool {
+					if se, ok := x.(*ast.SelectorExpr); ok && se.Sel.Name == helperShort {
+						uses++
+					}
+					return true
+				})
+			}
+			if uses != 1 {
+				pure = false
+			}
+		}
 		c21RemoveStmts(fd.Body, func(s ast.Stmt) bool {
+			if es, ok := s.(*ast.ExprStmt); ok && helperShort != "" {
+				if call, ok := es.X.(*ast.CallExpr); ok && len(call.Args) == 0 && types.ExprString(call.Fun) == recv+"."+helperShort {
+					hooks++
+					return true
+				}
+			}
 			is, ok := s.(*ast.IfStmt)
 			if !ok || !engine.MentionsName(is.Cond, "callback") {
 				return false
 			}
 			hooks++
-			// shape: if p.callback != nil { p.callback(<selector reads on p>...) }
-			if is.Init != nil || is.Else != nil || len(is.Body.List) != 1 || types.ExprString(is.Cond) != "p.callback != nil" {
+			if !c21PureHook(is, recv) {
 				pure = false
-				return true
-			}
-			es, ok := is.Body.List[0].(*ast.ExprStmt)
-			if !ok {
-				pure = false
-				return true
-			}
-			call, ok := es.X.(*ast.CallExpr)
-			if !ok || types.ExprString(call.Fun) != "p.callback" {
-				pure = false
-				return true
-			}
-			for _, a := range call.Args {
-				se, ok := a.(*ast.SelectorExpr)
-				if !ok || types.ExprString(se.X) != "p" || (se.Sel.Name != "tok" && se.Sel.Name != "nestLev") {
-					pure = false // only value-typed scalar fields may be handed out
-				}
 			}
 			return true
 		})
 		a, b := ceAstDump(fd, nil), ceAstDump(u.node, nil)
 		ok := hooks == 1 && pure && a == b
-		why := fmt.Sprintf("next0 must be upstream's next0 plus one `if p.callback != nil { p.callback(p.tok, p.nestLev) }` (hooks=%d, observing-only=%v)", hooks, pure)
+		why := fmt.Sprintf("next0 must be upstream's next0 plus one `if p.callback != nil { p.callback(p.tok, p.nestLev) }` (inline or as the only content of a private helper called once) (hooks=%d, observing-only=%v)", hooks, pure)
 		if a != b {
 			why += "; " + c21FirstDiff(a, b)
 		}
 		c.CheckAt("callback-hook", key("(*parser).next0"), where(d), ok, why)
 	}
-	// *2 entry points ≡ base entry points of the fork
+	// *2 entry points ≡ base entry points (of the fork, or of upstream when the base delegates to the twin)
 	twins := 0
-	for _, pr := range [][2]string{{"ParseFile2", "ParseFile"}, {"ParseExprFrom2", "ParseExprFrom"}, {"ParseExpr2", "ParseExpr"}} {
+	for _, pr := range twinPairs {
 		d2, d1 := fork[pr[0]], fork[pr[1]]
 		if d2 == nil || d1 == nil {
 			c.Undecided("anchor", key(pr[0]), "entry point not found")
 			continue
 		}
 		twins++
-		f2 := d2.node.(*ast.FuncDecl)
-		why := ""
-		// drop trailing `callback ParserCallback` parameter
-		ps := f2.Type.Params.List
-		if n := len(ps); n == 0 || len(ps[n-1].Names) != 1 || ps[n-1].Names[0].Name != "callback" || types.ExprString(ps[n-1].Type) != "ParserCallback" {
-			why = "last parameter must be `callback ParserCallback`"
-		} else {
-			f2.Type.Params.List = ps[:n-1]
-		}
-		sets := 0
-		c21RemoveStmts(f2.Body, func(s ast.Stmt) bool {
-			as, ok := s.(*ast.AssignStmt)
-			if ok && len(as.Lhs) == 1 && len(as.Rhs) == 1 && as.Tok == token.ASSIGN && types.ExprString(as.Lhs[0]) == "p.callback" && types.ExprString(as.Rhs[0]) == "callback" {
-				sets++
-				return true
-			}
-			return false
-		})
-		// ParseExpr2 forwards to ParseExprFrom2(..., callback)
-		fwd := 0
-		ast.Inspect(f2.Body, func(x ast.Node) bool {
-			if call, ok := x.(*ast.CallExpr); ok {
-				if id, ok := call.Fun.(*ast.Ident); ok && strings.HasSuffix(id.Name, "2") && fork[id.Name] != nil && len(call.Args) > 0 {
-					if last, ok := call.Args[len(call.Args)-1].(*ast.Ident); ok && last.Name == "callback" {
-						id.Name = strings.TrimSuffix(id.Name, "2")
-						call.Args = call.Args[:len(call.Args)-1]
-						fwd++
-					}
+		why := strippedWhy[pr[1]]
+		if why == "" {
+			if delegates[pr[1]] {
+				if want, which, decided := upstreamOf(pr[1]); decided && stripped[pr[1]] != want {
+					why = pr[0] + " is not " + which + "'s " + pr[1] + " plus the callback: " + c21FirstDiff(stripped[pr[1]], want)
 				}
+			} else if b := ceAstDump(d1.node, nil); stripped[pr[1]] != b {
+				why = pr[0] + " is not " + pr[1] + " plus the callback: " + c21FirstDiff(stripped[pr[1]], b)
 			}
-			return true
-		})
-		if sets+fwd != 1 && why == "" {
-			why = fmt.Sprintf("the callback must be installed exactly once (p.callback = callback: %d, forwarded: %d)", sets, fwd)
-		}
-		if engine.MentionsName(f2.Body, "callback") && why == "" {
-			why = "callback is used beyond being installed"
-		}
-		f2.Name.Name = pr[1]
-		a, b := ceAstDump(f2, nil), ceAstDump(d1.node, nil)
-		if a != b && why == "" {
-			why = pr[0] + " is not " + pr[1] + " plus the callback: " + c21FirstDiff(a, b)
 		}
 		c.CheckAt("twin-entry", key(pr[0]), where(d2), why == "", why)
 	}
@@ -507,11 +542,139 @@ func c21(c *engine.Ctx) {
 			refs := p.RefsTo(func(o types.Object) bool { return o == fld })
 			users := engine.CallerSet(refs)
 			allowed := []string{c21Fork + ".(*parser).next0", c21Fork + ".ParseFile2", c21Fork + ".ParseExprFrom2"}
+			if hookHelper != "" {
+				allowed = append(allowed, c21Fork+"."+hookHelper)
+			}
 			extra := engine.SetDiff(users, allowed)
-			c.Check("callback-refs", c21Fork+".parser.callback", fld.Pos(), len(extra) == 0 && len(users) == 3, "callback field may be referenced only by next0 and the two *2 entry points; referenced by: "+join(users))
+			c.Check("callback-refs", c21Fork+".parser.callback", fld.Pos(), len(extra) == 0 && len(users) >= 1, "callback field may be referenced only by next0 (or its hook helper) and the two *2 entry points; referenced by: "+join(users))
 		}
 	}
 
+}
+
+func c21RecvName(fd *ast.FuncDecl) string {
+	if fd.Recv != nil && len(fd.Recv.List) == 1 && len(fd.Recv.List[0].Names) == 1 {
+		return fd.Recv.List[0].Names[0].Name
+	}
+	return ""
+}
+
+// c21PureHook: `if R.callback != nil { R.callback(R.tok|R.nestLev ...) }` and nothing else.
+func c21PureHook(is *ast.IfStmt, recv string) bool {
+	if recv == "" || is.Init != nil || is.Else != nil || len(is.Body.List) != 1 || types.ExprString(is.Cond) != recv+".callback != nil" {
+		return false
+	}
+	es, ok := is.Body.List[0].(*ast.ExprStmt)
+	if !ok {
+		return false
+	}
+	call, ok := es.X.(*ast.CallExpr)
+	if !ok || types.ExprString(call.Fun) != recv+".callback" {
+		return false
+	}
+	for _, a := range call.Args {
+		se, ok := a.(*ast.SelectorExpr)
+		if !ok || types.ExprString(se.X) != recv || (se.Sel.Name != "tok" && se.Sel.Name != "nestLev") {
+			return false // only value-typed scalar fields may be handed out
+		}
+	}
+	return true
+}
+
+// c21IsHookHelper: an unexported, parameterless, resultless *parser method whose
+// whole body is the observing hook.
+func c21IsHookHelper(fd *ast.FuncDecl) bool {
+	if fd.Recv == nil || len(fd.Recv.List) != 1 || types.ExprString(fd.Recv.List[0].Type) != "*parser" || ast.IsExported(fd.Name.Name) {
+		return false
+	}
+	if fd.Type.Params.NumFields() != 0 || (fd.Type.Results != nil && fd.Type.Results.NumFields() != 0) || fd.Body == nil || len(fd.Body.List) != 1 {
+		return false
+	}
+	is, ok := fd.Body.List[0].(*ast.IfStmt)
+	return ok && c21PureHook(is, c21RecvName(fd))
+}
+
+// c21DelegatesToTwin: the body is exactly `return <twin>(<own parameters in order>, nil)`.
+func c21DelegatesToTwin(fd *ast.FuncDecl, twin string) bool {
+	if fd.Body == nil || len(fd.Body.List) != 1 {
+		return false
+	}
+	r, ok := fd.Body.List[0].(*ast.ReturnStmt)
+	if !ok || len(r.Results) != 1 {
+		return false
+	}
+	call, ok := r.Results[0].(*ast.CallExpr)
+	if !ok || types.ExprString(call.Fun) != twin || call.Ellipsis.IsValid() {
+		return false
+	}
+	var params []string
+	for _, f := range fd.Type.Params.List {
+		for _, n := range f.Names {
+			params = append(params, n.Name)
+		}
+	}
+	if len(call.Args) != len(params)+1 || types.ExprString(call.Args[len(params)]) != "nil" {
+		return false
+	}
+	for i, pn := range params {
+		if id, ok := call.Args[i].(*ast.Ident); !ok || id.Name != pn {
+			return false
+		}
+	}
+	return true
+}
+
+// c21StripTwin removes the callback from a *2 entry point (trailing ParserCallback
+// parameter; the single `<parser>.callback = <param>` statement, or the single
+// forwarding of the parameter to another *2 function) and renames it to base.
+// It edits fd in place and returns its dump; why is non-empty when the callback is
+// used in any other way.
+func c21StripTwin(fd *ast.FuncDecl, base string, fork map[string]*c21Decl) (dump, why string) {
+	cb := ""
+	ps := fd.Type.Params.List
+	if n := len(ps); n == 0 || len(ps[n-1].Names) != 1 || types.ExprString(ps[n-1].Type) != "ParserCallback" {
+		why = "last parameter must be a single ParserCallback"
+	} else {
+		cb = ps[n-1].Names[0].Name
+		fd.Type.Params.List = ps[:n-1]
+	}
+	sets := 0
+	c21RemoveStmts(fd.Body, func(s ast.Stmt) bool {
+		as, ok := s.(*ast.AssignStmt)
+		if !ok || len(as.Lhs) != 1 || len(as.Rhs) != 1 || as.Tok != token.ASSIGN || cb == "" {
+			return false
+		}
+		se, isSel := as.Lhs[0].(*ast.SelectorExpr)
+		if _, isId := as.Lhs[0].(*ast.SelectorExpr); !isId || !isSel || se.Sel.Name != "callback" {
+			return false
+		}
+		if _, plain := se.X.(*ast.Ident); !plain || types.ExprString(as.Rhs[0]) != cb {
+			return false
+		}
+		sets++
+		return true
+	})
+	fwd := 0
+	ast.Inspect(fd.Body, func(x ast.Node) bool {
+		if call, ok := x.(*ast.CallExpr); ok && cb != "" {
+			if id, ok := call.Fun.(*ast.Ident); ok && strings.HasSuffix(id.Name, "2") && fork[id.Name] != nil && len(call.Args) > 0 {
+				if last, ok := call.Args[len(call.Args)-1].(*ast.Ident); ok && last.Name == cb {
+					id.Name = strings.TrimSuffix(id.Name, "2")
+					call.Args = call.Args[:len(call.Args)-1]
+					fwd++
+				}
+			}
+		}
+		return true
+	})
+	if sets+fwd != 1 && why == "" {
+		why = fmt.Sprintf("the callback must be installed exactly once (<parser>.callback = %s: %d, forwarded: %d)", cb, sets, fwd)
+	}
+	if cb != "" && engine.MentionsName(fd.Body, cb) && why == "" {
+		why = "callback is used beyond being installed"
+	}
+	fd.Name.Name = base
+	return ceAstDump(fd, nil), why
 }
 
 func c21Imports(path string) ([]string, error) {
